@@ -70,9 +70,9 @@ def statements(path):
 
 def requires(path):
     """SV files directly required by a .v file"""
-    txt = open(path).read()
+    txt = re.sub(r"\(\*.*?\*\)", "", open(path).read(), flags=re.S)
     out = []
-    for m in re.finditer(r"From SV Require (?:Import|Export)\s+([^.]*(?:\.[A-Za-z0-9_]+)*[^.]*)\.\s", txt):
+    for m in re.finditer(r"From\s+SV\s+Require\s+(?:Import|Export)\s+((?:[A-Za-z0-9_]+(?:\.[A-Za-z0-9_]+)*\s*)+)\.(?:\s|$)", txt):
         for name in m.group(1).split():
             out.append(os.path.join(COQ, name.replace(".", "/") + ".v"))
     return out
